@@ -23,7 +23,7 @@ func init() {
 	registerExtra("C15", c15SortInPlace)
 	registerExtra("C16", c16MeasureDrawAgree)
 	registerExtra("C01", c01EmptyFrameCursor)
-	registerExtra("C12", c01EmptyFrameCursorC12)
+	// C12.g is decided by c12EmptyFrameCursor (c12_resolve.go): same obligation keys, by symbolic execution of Flush
 }
 
 // mustHeld computes, for every block of g, whether the mutex at path mu is held at block entry on all paths.
